@@ -42,7 +42,9 @@ Definition contain_pre (b : url) (input : list N) : bool :=
    41 F-C08-4a: the path part of the reference is empty, the target has no query but the base has one
    42 F-C08-4b: the first segment of the reference reads as a scheme
    43 F-C08-4c: an empty path, an empty segment in a directory part, or the reference is "/" below the root
-   45 F-C08-4e: a drive-letter-shaped segment in either path (never popped by '..', in any scheme)
+   45 F-C08-4e: a drive-letter-shaped segment - for a file base anywhere in either path; for every other scheme
+      among the directory segments of the base that the reference's '..' steps must pop (such a segment is
+      never popped, in any scheme: last_slash_can_be_removed)
    46 a dot segment (in any spelling) in the target path - not produced by the parser *)
 Definition is_dotty (s : list N) : bool := is_single_dot s || is_double_dot s.
 Definition nil_segs (l : list (list N)) : bool := match l with [] => true | _ => false end.
@@ -59,7 +61,9 @@ Definition mr_class (b t : url) : N :=
             let td := split_on 47 dpt in
             if existsb is_nil (tl bd) || existsb is_nil (tl td) then 43
             else if existsb is_dotty (tl td ++ [tf]) then 46
-            else if existsb starts_with_wdl (bd ++ td ++ [bf; tf]) then 45
+            else if existsb starts_with_wdl
+                      (if st_is_file (scheme_type_of (b_scheme b)) then bd ++ td ++ [bf; tf]
+                       else fst (skip_common bd td)) then 45
             else
               let '(ra, rb) := skip_common bd td in
               let same_dir := nil_segs ra && nil_segs rb in
